@@ -453,6 +453,22 @@ static inline bg_list *bg_vec_list_u__index(bg_adj *a, bg_size i) {
   return &bg_scratch_row.row;
 }
 
+/* vector::at : range-checked */
+static inline const bg_list *bg_vec_list_u__at_c(const bg_adj *a, bg_size i) {
+  if (i >= a->n) {
+    bg_exc = BG_OUT_OF_RANGE;
+    return a->rowP;
+  }
+  return bg_vec_list_u__index_c(a, i);
+}
+static inline bg_list *bg_vec_list_u__at(bg_adj *a, bg_size i) {
+  if (i >= a->n) {
+    bg_exc = BG_OUT_OF_RANGE;
+    return a->rowP;
+  }
+  return bg_vec_list_u__index(a, i);
+}
+
 /* vector::resize(k, empty list) -- growth only is modelled */
 static inline void bg_vec_list_u__resize(bg_adj *a, bg_size k, const bg_list *v) {
   __CPROVER_assert(k >= a->n, "ABSTRACTION vector<list>::resize shrink");
